@@ -164,7 +164,24 @@ def rule_breaking(rng):
         ("implicit_output_ambiguous", "multiply", f"{A} {B} {C}, {C} {A} {B}", [z(A, B, C), z(C, A, B)]),
         ("implicit_output_ambiguous", "where", f"{A} {B}, {B} {A}, {A}", [z(A, B) > 0, z(B, A), z(A)]),
     ]
-    return [(k, fn, d, arrs, {}) for k, fn, d, arrs in t]
+    out = [(k, fn, d, arrs, {}) for k, fn, d, arrs in t]
+    # per-repetition keyword sizes (sequences) in which one entry is not a positive integer: rejected, and not by quoting a
+    # size as expression text
+    n = rng.randint(2, 3)
+    good = [rng.choice([2, 3]) for _ in range(n)]
+    other = [rng.choice([2, 3]) for _ in range(n)]
+    j = rng.randrange(n)
+    bad = list(good)
+    bad[j] = rng.choice([-1, -good[j], 0, -7])
+    wrap = rng.choice([tuple, list, lambda v: np.asarray(v)])
+    full = np.zeros(tuple(g * o for g, o in zip(good, other)))
+    out += [
+        ("kw_sequence_entry_not_positive", "id", f"({A} {B})... -> {A}... {B}...", [full], {B: wrap(bad)}),
+        ("kw_sequence_entry_not_positive", "sum", f"{A} [{B}...]", [np.zeros((2,) + tuple(good))], {B: wrap(bad)}),
+        ("kw_sequence_entry_not_positive", "solve_axes", f"({A} {B})...", [full], {B: wrap(bad)}),
+        ("kw_sequence_entry_not_positive", "id", f"{C} ({A} {B})... -> {C} {B}... {A}...", [np.zeros((2,) + full.shape)], {A: wrap(bad)}),
+    ]
+    return out
 
 
 
@@ -246,7 +263,8 @@ def run(ctx):
         items.append(("derived_text", fn, d, arrs, {}, False, None))
     for _ in range(6 if ctx.tier == "quick" else 200):
         for k, fn, d, arrs, kw in rule_breaking(ctx.rng):
-            items.append(("rule:" + k, fn, d, arrs, kw, True, ctx.rng.choice([None, None, "numpy.numpylike", "numpy.einsum"])))
+            b = ctx.rng.choice([None, None, "numpy.numpylike", "numpy.einsum"])
+            items.append(("rule:" + k, fn, d, arrs, kw, True, None if fn.startswith("solve") else b))
     res = common.pmap(_work, items)
     outcomes = {}
     kinds = {}
